@@ -89,7 +89,10 @@ def build_unit(unit, log):
                 os.path.join(unit.dir, "inc", "galois", "config.h"))
     cxx = shlex.split(unit.opts.get("cxxflags", ""))
     ll = os.path.join(unit.dir, unit.name + ".ll")
-    cmd = ["clang++-14"] + CLANG_FLAGS + cxx + include_flags(unit) + ["-S", "-emit-llvm", unit.path, "-o", ll]
+    flags = list(CLANG_FLAGS)
+    if unit.opts.get("opt"):  # e.g. opt=-O0: source-level undefined behaviour (over-wide shifts ...) stays visible in the IR
+        flags[flags.index("-O1")] = unit.opts["opt"]
+    cmd = ["clang++-14"] + flags + cxx + include_flags(unit) + ["-S", "-emit-llvm", unit.path, "-o", ll]
     rc, out, dt = sh(cmd, timeout=600)
     log.write("$ %s\n%s\n" % (" ".join(cmd), out))
     if rc != 0:
@@ -260,6 +263,10 @@ def cbmc_cmd(unit, ob, witness, params=None):
     if ob.get("unwindset"):
         cmd += ["--unwindset", ob["unwindset"]]
     cmd += SOLVERS[ob["solver"]]
+    if not witness and (ob.get("checks") or unit.opts.get("checks")) == "min":
+        # concurrent units: CBMC's per-dereference pointer checks multiply the formula (out of memory at 6-15 GB);
+        # only the harness assertions, the deadlock/step-bound assertions and the unwinding assertions are kept
+        cmd += ["--no-standard-checks", "--unwinding-assertions"]
     for extra in shlex.split(ob.get("cbmc", "")):
         cmd.append(extra)
     return cmd
